@@ -20,7 +20,7 @@ VARIABLES f, f0, hist
 vars == <<f, f0, hist>>
 
 Mk(r, s, c) == [roots |-> r, secs |-> s, ver |-> c.ver, dpad |-> c.dpad, ipad |-> c.ipad, idx |-> c.idx,
-                full |-> c.full, npad |-> c.npad, hx |-> IF "hx" \in DOMAIN c THEN c.hx ELSE 0]
+                full |-> c.full, npad |-> c.npad, hx |-> IF "hx" \in DOMAIN c THEN c.hx ELSE 0, xid |-> FALSE]
 
 Init == /\ \E r \in RootLists, k \in 0..MaxLen, c \in Conts : \E s \in [1..k -> SecIds] : f = Mk(r, s, c)
         /\ f0 = f
@@ -31,16 +31,17 @@ Step(op, res, nf) == /\ Len(hist) < MaxOps
                      /\ f' = nf
                      /\ UNCHANGED f0
 
-Wrap(codec) ==
+(* ident: the caller passed StoreIdentityCIDs: the index lists the identity sections, the header is the default one *)
+Wrap(codec, ident) ==
   IF f.ver = 1
-    THEN Step([op |-> "wrap", codec |-> codec], "ok",
-              [f EXCEPT !.ver = 2, !.dpad = 0, !.ipad = 0, !.idx = codec, !.full = FALSE])
+    THEN Step([op |-> "wrap", codec |-> codec, ident |-> ident], "ok",
+              [f EXCEPT !.ver = 2, !.dpad = 0, !.ipad = 0, !.idx = codec, !.full = FALSE, !.xid = ident])
     ELSE FALSE        \* wrapping something that is not a CARv1 is outside the property
 
 Extract(dst) ==
   IF f.ver = 2
     THEN Step([op |-> "extract", dst |-> dst], "ok",
-              [f EXCEPT !.ver = 1, !.dpad = 0, !.ipad = 0, !.idx = "none", !.full = FALSE])
+              [f EXCEPT !.ver = 1, !.dpad = 0, !.ipad = 0, !.idx = "none", !.full = FALSE, !.xid = FALSE])
     ELSE Step([op |-> "extract", dst |-> dst], "err", f)      \* already a CARv1: refused, untouched
 
 (* The new header is written canonically over the one on disk, whose length is HLen(f) -- with a
@@ -50,7 +51,7 @@ Replace(r) ==
     THEN Step([op |-> "replace", roots |-> r], "ok", [f EXCEPT !.roots = r, !.hx = 0])
     ELSE Step([op |-> "replace", roots |-> r], "err", f)       \* refused, file untouched
 
-Next == \/ \E c \in {"mh", "sorted"} : Wrap(c)
+Next == \/ \E c \in {"mh", "sorted"}, i \in BOOLEAN : Wrap(c, i)
         \/ \E d \in {"absent", "larger", "same", "alias", "symlink"} : Extract(d)      \* alias / symlink: the source itself, named otherwise
         \/ \E r \in ReplRoots : Replace(r)
 Spec == Init /\ [][Next]_vars
